@@ -215,7 +215,13 @@ func (e *Env) ident(name string) (Val, error) {
 		comp, ks, vs := g.ghostComp(gv)
 		t := g.hget(e.heap, comp)
 		if ks != "" {
-			return Val{T: t, S: Sort(arrSort(string(ks), string(vs)))}, nil
+			mv := Val{T: t, S: Sort(arrSort(string(ks), string(vs)))}
+			if ps := strings.Split(gv.Type, ":"); len(ps) == 3 && strings.HasPrefix(ps[2], "*") {
+				if ty, err := g.resolveType(ps[2]); err == nil {
+					mv.Ty = ty // the Go type of the map's values (so that fields can be selected)
+				}
+			}
+			return mv, nil
 		}
 		return Val{T: t, S: vs, Ty: ghostGoType(gv.Type)}, nil
 	}
@@ -387,7 +393,7 @@ func (e *Env) index(x *EIndex) (Val, error) {
 	case strings.HasPrefix(string(v.S), "(Array"):
 		// ghost map / array
 		vs := arrayValueSort(string(v.S))
-		return Val{T: sel(v.T, i.T), S: Sort(vs)}, nil
+		return Val{T: sel(v.T, i.T), S: Sort(vs), Ty: v.Ty}, nil
 	case v.S == SRef && v.Ty != nil:
 		if mt, ok := v.Ty.Underlying().(*types.Map); ok {
 			ks, vs := g.sortOf(mt.Key()), g.sortOf(mt.Elem())
